@@ -311,6 +311,11 @@ DEFAULTS: Dict[str, Dict[str, Any]] = {}
 
 # module-level constant lookup tables: global name -> {constant key: value term}
 CONST_TABLES: Dict[str, Dict[Any, Term]] = {}
+# module-private sentinels (`_X = object()` that is only ever returned and compared by identity): global name ->
+# qualified names of the functions that can return it
+SENTINELS: Dict[str, frozenset] = {}
+# module-level constants introduced after the pinned tree: global name -> literal term
+CONST_VALUES: Dict[str, Term] = {}
 _OPERATOR = {"gt": ">", "ge": ">=", "lt": "<", "le": "<=", "eq": "==", "ne": "!=", "is_": "is", "is_not": "isnot"}
 
 
@@ -335,6 +340,32 @@ def record_values(t: Any) -> Optional[Tuple[str, Dict[str, Term]]]:
     return t[1][1], vals
 
 
+def _is_sentinel(x: Any, s_: Term) -> Optional[Term]:
+    """`x is S` for a module-private sentinel S: decided from where x comes from (S itself; one of two values;
+    anything that is not the result of a function that can return S)."""
+    x = strip(x)
+    if x == s_:
+        return ("const", True)
+    if is_term(x) and x[0] in ("phi", "ifexp") and len(x) == 4:
+        a, b = _is_sentinel(x[2], s_), _is_sentinel(x[3], s_)
+        if a is None or b is None:
+            return None
+        t = ("phi", x[1], a, b)
+        return _project(t) or t
+    if is_term(x) and x[0] in ("await",):
+        return _is_sentinel(x[1], s_)
+    if is_term(x) and x[0] == "call":
+        f = x[1]
+        nm = f[1].rsplit(".", 1)[-1] if f[0] == "glob" else (f[2] if f[0] == "attr" else None)
+        if nm is None or any(q.rsplit(".", 1)[-1] == nm for q in SENTINELS[s_[1]]):
+            return None
+        return ("const", False)
+    if is_term(x) and x[0] in ("var", "const", "tuple", "bag", "dict", "attr", "idx", "op", "glob", "fstr"):
+        # the sentinel is never stored, passed as an argument or put into a container
+        return ("const", False)
+    return None
+
+
 def _project(t: Term) -> Optional[Term]:
     """One step of evaluation on a term whose parts are already normalised: field / index of a value-class
     constructor, conditionals on a constant, explicit default arguments."""
@@ -344,7 +375,7 @@ def _project(t: Term) -> Optional[Term]:
         rv = record_values(b)
         if rv is not None and t[2] in rv[1] and t[2] in RECORDS[rv[0]][3]:
             return rv[1][t[2]]
-        if is_term(b) and b[0] == "phi" and len(b) == 4 and record_values(strip(b[2])) is not None and record_values(strip(b[3])) is not None:
+        if is_term(b) and b[0] == "phi" and len(b) == 4:
             x, y = _project(("attr", strip(b[2]), t[2])), _project(("attr", strip(b[3]), t[2]))
             if x is not None and y is not None:
                 return ("phi", b[1], x, y)
@@ -357,9 +388,25 @@ def _project(t: Term) -> Optional[Term]:
                 return rv[1][fields[t[2][1]]]
         if is_term(t[1]) and t[1][0] == "glob" and t[1][1] in CONST_TABLES and t[2][1] in CONST_TABLES[t[1][1]]:
             return CONST_TABLES[t[1][1]][t[2][1]]
-    elif k == "idx" and len(t) == 3 and is_term(t[1]) and t[1][0] == "glob" and t[1][1] in CONST_TABLES:
-        tab = CONST_TABLES[t[1][1]]
+        if is_term(b) and b[0] == "tuple" and len(b) == 2 and -len(b[1]) <= t[2][1] < len(b[1]) and not any(is_term(x) and x[0] == "star" for x in b[1]):
+            return b[1][t[2][1]]            # a component of a tuple display
+    elif k == "idx" and len(t) == 3 and is_term(t[1]) and ((t[1][0] == "glob" and t[1][1] in CONST_TABLES) or (t[1][0] == "dict" and t[1][1] and all(
+            is_term(p[0]) and p[0][0] == "const" for p in t[1][1])) or (t[1][0] == "tuple" and len(t[1]) == 2 and len(t[1][1]) == 2)):
+        # a literal lookup table
+        if t[1][0] == "glob":
+            tab = CONST_TABLES[t[1][1]]
+        elif t[1][0] == "dict":
+            tab = {p[0][1]: p[1] for p in t[1][1]}
+        else:
+            tab = {False: t[1][1][0], True: t[1][1][1]}
         key = t[2]
+        if t[1][0] != "tuple" and is_term(key) and key[0] not in ("const", "call", "cmp", "not") and 2 <= len(tab) <= 4 and all(isinstance(x, str) for x in tab):
+            # indexed by something that is one of the (few, named) keys: a chain of conditionals; any other key is an error
+            ks = list(tab)
+            out = tab[ks[-1]]
+            for kk in reversed(ks[:-1]):
+                out = ("phi", canon_cmp("==", key, ("const", kk)), tab[kk], out)
+            return out
         if is_term(key) and key[0] == "const" and key[1] in tab:
             return tab[key[1]]
         if is_term(key) and key[0] == "call" and key[1] == ("glob", "bool") and len(key[2]) == 1 and True in tab and False in tab:
@@ -368,6 +415,20 @@ def _project(t: Term) -> Optional[Term]:
             return ("phi", key, tab[True], tab[False])
     elif k in ("phi", "ifexp") and len(t) == 4 and is_term(t[1]) and t[1][0] == "const":
         return t[2] if t[1][1] else t[3]
+    elif k == "phi" and len(t) == 4 and t[2] == t[3]:
+        return t[2]
+    elif k == "phi" and len(t) == 4 and t[2] == ("const", True) and t[3] == ("const", False):
+        return t[1]
+    elif k == "phi" and len(t) == 4 and t[2] == ("const", False) and t[3] == ("const", True):
+        return negate(t[1])
+    elif k == "cmp" and t[1] in ("is", "isnot") and SENTINELS and ((is_term(t[3]) and t[3][0] == "glob" and t[3][1] in SENTINELS) or (is_term(t[2]) and t[2][0] == "glob" and t[2][1] in SENTINELS)):
+        s_, x = (t[3], t[2]) if (is_term(t[3]) and t[3][0] == "glob" and t[3][1] in SENTINELS) else (t[2], t[3])
+        r = _is_sentinel(x, s_)
+        if r is not None:
+            return r if t[1] == "is" else (negate(r) if r[0] != "const" else ("const", not r[1]))
+    elif k == "call" and len(t) == 4 and t[1] in (("glob", "list"), ("glob", "tuple"), ("glob", "set"), ("glob", "frozenset")) and len(t[2]) == 1 and not t[3] \
+            and is_term(t[2][0]) and t[2][0][0] == "bag" and len(t[2][0]) >= 2:
+        return ("bag", t[2][0][1], t[1][1])          # a copy of a collection (as the walker reads it in place)
     elif k == "call" and len(t) == 4 and is_term(t[1]) and t[1][0] == "phi" and len(t[1]) == 4:
         # calling one of two functions: one of two calls
         a, b = ("call", t[1][2], t[2], t[3]), ("call", t[1][3], t[2], t[3])
